@@ -3,7 +3,7 @@
    translated from the source on this run are the model's functions: which byte strings are read as
    integers, the operators and their nesting, base / exponent / modulus of every modpow, the remainder,
    the padding, and the key check applied to the result. *)
-From Coq Require Import List NArith ZArith.
+From Coq Require Import List NArith ZArith Lia.
 From WS Require Import lib.Bytes lib.Res lib.StepLoop Consts Steps model.Bigint model.Key model.Srp.
 Import ListNotations.
 
@@ -48,4 +48,23 @@ Proof.
   destruct (modpow be (Z.of_N g) _ _) as [gx|e|]; [|destruct e|reflexivity]. cbn [bind].
   destruct (modpow be _ _ _) as [s|e|]; [|destruct e|reflexivity]. cbn [bind].
   destruct (to_padded_32_byte_array_le be s) as [r|e|]; [reflexivity|destruct e|reflexivity].
+Qed.
+
+Lemma skipn_repeat_N : forall n m (x : N), skipn n (repeat x m) = repeat x (m - n).
+Proof. induction n as [|n IH]; intros [|m] x; cbn [skipn repeat Nat.sub]; try reflexivity. apply IH. Qed.
+
+(* ---- Integer::to_padded_32_byte_array_le, translated from src/bigint.rs on this run (the back end's
+   to_bytes_le is the modelled dependency): the range / length checks of `array[0..len].clone_from_slice`
+   are exactly the model's Panic condition ---- *)
+Lemma bigint_to_padded_32_translated : forall be z,
+  tr_bigint_to_padded_32 be z = match to_padded_32_byte_array_le be z with Ok a => Some a | _ => None end.
+Proof.
+  intros be z. unfold tr_bigint_to_padded_32, to_padded_32_byte_array_le, pad_to. cbv zeta.
+  set (v := to_bytes_le be z). rewrite repeat_length. change (N.to_nat 32) with 32%nat.
+  destruct (Nat.ltb_spec 32 (length v)) as [Hlt|Hge].
+  - destruct (N.ltb_spec (N.of_nat 32) (N.of_nat (length v))) as [_|H]; [reflexivity|lia].
+  - destruct (N.ltb_spec (N.of_nat 32) (N.of_nat (length v))) as [H|_]; [lia|].
+    destruct (N.ltb_spec (N.of_nat (length v)) 0) as [H|_]; [lia|].
+    rewrite N.sub_0_r, N.eqb_refl. cbn [negb firstn app]. rewrite Nat2N.id.
+    rewrite skipn_repeat_N. reflexivity.
 Qed.
